@@ -1686,6 +1686,11 @@ class GroupBy:
                     "column. Please use `aggregate` if you really need to do this."
                 )
             result = result[result.columns[0]]
+        elif isinstance(self._slice, (list, tuple)):
+            # Mean and Var compute the columns in the order of the frame
+            columns = [c for c in self._slice if c in result.columns]
+            if columns != list(result.columns):
+                result = result[columns]
         return result
 
     @derived_from(pd.core.groupby.GroupBy)
